@@ -961,11 +961,11 @@ impl CodegenContext {
                             let target_pc = value as i64;
                             // If the current PC cannot be determined we'll just default to the target_pc. This will be fixed up later
                             // when the instruction is re-emitted.
-                            let cur_pc = (self
+                            let cur_pc = self
                                 .try_current_target_pc()
-                                .unwrap_or_else(|| target_pc.into())
-                                + 2)
-                            .as_i64();
+                                .map(|pc| pc.as_i64())
+                                .unwrap_or(target_pc)
+                                .saturating_add(2);
                             // A target that is so far away that the distance doesn't fit is simply too far
                             let mut offset = target_pc.checked_sub(cur_pc).unwrap_or(i64::MAX);
                             if (-128..=127).contains(&offset) {
